@@ -74,6 +74,9 @@ def temperature_pairs():
             a = dict(base, temp=temp, iter=it, temp_via="setter", tag="temp-%s-%s-setter" % (kind, it))
             b = dict(base, temp=temp, iter=it, temp_via="constructor", tag="temp-%s-%s-constructor" % (kind, it))
             out.append((a, b, "%s/%s: setter vs constructor" % (kind, it)))
+            # the same schedule supplied only after setup() (the model was set up at the constant temperature the schedule starts at)
+            c = dict(base, temp=temp, iter=it, temp_via="after-setup", tag="temp-%s-%s-after-setup" % (kind, it))
+            out.append((a, c, "%s/%s: schedule set before vs after setup()" % (kind, it)))
             if kind == "array":
                 a2, b2 = dict(b, np_arrays=True, tag=b["tag"] + "-np"), dict(a, np_arrays=True, tag=a["tag"] + "-np")
                 out.append((a2, b2, "%s/%s: constructor then setter, same numpy arrays" % (kind, it)))
